@@ -10,7 +10,7 @@
    allocated - is modelled at the time it happens. *)
 From Coq Require Import List NArith ZArith Bool.
 From GoPdf.Base Require Import Bytes Res.
-From GoPdf.Gen Require Import Gen_Consts Gen_Limits.
+From GoPdf.Gen Require Import Gen_Consts Gen_Limits Gen_C02.
 From GoPdf.C02 Require Import Obj Dec Syntax.
 Import ListNotations.
 Open Scope N_scope.
@@ -148,8 +148,11 @@ Definition append_filter (sd : dict) (f : filt) : dict :=
       dict_set k_DecodeParms (OArr (pp1 ++ [ODict parms])) sd1
     else sd1
   | _ =>
+    (* a /DecodeParms found here has no filter it could belong to: it does not become the
+       parameters of the filter added now *)
     let sd1 := dict_set k_Filter (OName name) sd in
-    if negb (Nat.eqb (length parms) 0) then dict_set k_DecodeParms (ODict parms) sd1 else sd1
+    if negb (Nat.eqb (length parms) 0) then dict_set k_DecodeParms (ODict parms) sd1
+    else dict_del k_DecodeParms sd1
   end.
 
 Definition add_filters (d : dict) (fs : list filt) : dict := fold_left append_filter fs d.
@@ -192,6 +195,37 @@ Definition k_endstream_endobj := Eval compute in (LF :: kw_endstream ++ LF :: kw
 
 Definition version_text (v : N) : bytes :=
   if v =? 8 then [50; 46; 48] else [49; 46; 48 + v].
+
+(* ---- what the formatter refuses to write, because the scanner would refuse to read it back
+   (types.go doFormat / formatName / formatString / formatDict; scanner.go ReadString, ReadName,
+   ReadArray, ReadDict): strings of maxStringBytes or more, names of maxNameBytes or more, arrays of
+   more than maxArrayLen elements, dictionaries with more than maxDictLen entries that are not null,
+   arrays and dictionaries nested maxScannerNestDepth deep, reals that are not finite (their text
+   is no number), references to object numbers of maxXRefSize or above ---- *)
+Definition real_char (b : N) : bool :=
+  ((48 <=? b) && (b <=? 57)) || (b =? 46) || (b =? 45) || (b =? 43).
+Definition real_ok (t : bytes) : bool :=
+  forallb real_char t && existsb (fun b => (48 <=? b) && (b <=? 57)) t.
+Definition name_ok (n : bytes) : bool := (Z.of_nat (length n) <? maxNameBytes)%Z.
+Definition str_ok (s : bytes) : bool := (Z.of_nat (length s) <? maxStringBytes)%Z.
+Definition count_nonnull (l : dict) : nat := length (filter (fun kv => negb (is_null (snd kv))) l).
+
+Fixpoint caps_ok (depth : N) (o : obj) : bool :=
+  match o with
+  | OStr s => str_ok s
+  | OName n => name_ok n
+  | OReal t => real_ok t
+  | ORef n _ => (Z.of_N n <? maxXRefSize)%Z
+  | OArr l =>
+    (Z.of_N depth <? maxScannerNestDepth)%Z && (Z.of_nat (length l) <=? maxArrayLen)%Z &&
+    forallb (caps_ok (depth + 1)) l
+  | ODict l =>
+    (Z.of_N depth <? maxScannerNestDepth)%Z && (Z.of_nat (count_nonnull l) <=? maxDictLen)%Z &&
+    forallb (fun kv => match kv with
+                       | (k, v) => is_null v || (name_ok k && caps_ok (depth + 1) v)
+                       end) l
+  | _ => true
+  end.
 
 Section Writer.
   Variable fmt : obj -> bytes.                       (* object syntax (C01) *)
@@ -603,7 +637,7 @@ Section Writer.
              strm := strm st2; after := after st2; wr := wr st2; xtab := xref st1;
              xpos := xpos st2; closed := closed st2 |}))).
 
-  Definition close (cat : obj) (info : option obj) (st : state) : res state :=
+  Definition close0 (cat : obj) (info : option obj) (st : state) : res state :=
     match strm st with
     | Some _ => Err Other
     | None =>
@@ -627,7 +661,16 @@ Section Writer.
             xpos := xp; closed := true |}))))
     end.
 
-  Definition step (st : state) (o : op) : res state :=
+  (* Close recovers the panic of Alloc (no object number left for the catalog, the info dictionary
+     or the cross-reference stream) and returns it as an error *)
+  Definition close (cat : obj) (info : option obj) (st : state) : res state :=
+    match close0 cat info st with
+    | Err Panic => Err Other
+    | r => r
+    end.
+
+  (* the operation as the code performs it once it has accepted the arguments *)
+  Definition step0 (st : state) (o : op) : res state :=
     if closed st then Err Other else
     match o with
     | Alloc => bind (alloc st) (fun '(_, st1) => Ok st1)
@@ -638,6 +681,57 @@ Section Writer.
     | CloseStream big => close_stream big st
     | Close cat info => close cat info st
     end.
+
+  (* ---- acceptance: what Put, WriteCompressed, OpenStream and Close refuse before they touch
+     the file, because the reader would refuse it.  A refused operation leaves the state as it
+     was (no cross-reference entry, no byte written, the writer usable). ---- *)
+  (* the stream dictionary as it is formatted: with its /Length, strings encrypted *)
+  Definition written_stream_dict (n g : N) (d : dict) (fs : list filt) : obj :=
+    ODict ((k_Length, OInt 0) ::
+           map (fun kv => match kv with (k, v) => (k, map_str (sc n g) v) end) (stream_dict n g d fs)).
+
+  Definition chain_length_ok (d : dict) (fs : list filt) : bool :=
+    match fs with
+    | [] => true                                       (* a chain only declared is written as it is *)
+    | _ => (Z.of_nat (length fs + length (old_chain (dict_del k_Length d))) <=? maxFilterChainLength)%Z
+    end.
+
+  Definition accepts_pobj (n g : N) (o : pobj) : bool :=
+    match o with
+    | PObj x => caps_ok 0 (map_str (sc n g) x)
+    | PStream d _ _ => caps_ok 0 (written_stream_dict n g d [])
+    end.
+
+  (* members of an object stream are not encrypted one by one; without object streams the batch
+     is a series of Puts *)
+  Fixpoint accepts_members (rs : list (N * N)) (os : list pobj) : bool :=
+    match rs, os with
+    | (n, g) :: rs', o :: os' =>
+      (if use_objstm c then caps_ok 0 (pobj_obj o) else accepts_pobj n g o) && accepts_members rs' os'
+    | _, _ => true
+    end.
+
+  Definition accepts (o : op) : bool :=
+    match o with
+    | Put n g x _ => accepts_pobj n g x
+    | WriteCompressed rs os _ => accepts_members rs os
+    | OpenStream n g d fs => chain_length_ok d fs && caps_ok 0 (written_stream_dict n g d fs)
+    | Close cat info =>
+      caps_ok 0 cat && match info with Some i => caps_ok 0 i | None => true end
+    | _ => true
+    end.
+
+  Definition step (st : state) (o : op) : res state :=
+    if accepts o then step0 st o else Err Other.
+
+  Lemma step_ok st o st' : step st o = Ok st' -> step0 st o = Ok st'.
+  Proof. unfold step. destruct (accepts o); [auto | discriminate]. Qed.
+
+  Lemma step_accepts st o st' : step st o = Ok st' -> accepts o = true.
+  Proof. unfold step. destruct (accepts o); [auto | discriminate]. Qed.
+
+  Lemma close_ok cat info st st' : close cat info st = Ok st' -> close0 cat info st = Ok st'.
+  Proof. unfold close. destruct (close0 cat info st) as [x|[]]; auto; discriminate. Qed.
 
   (* NewWriter *)
   Definition init : res state :=
@@ -656,6 +750,29 @@ Section Writer.
     end.
 
   Definition run (ops : list op) : res state := bind init (fun st => run_from st ops).
+
+  (* Alloc, Put, WriteCompressed and OpenStream that are refused leave the writer usable: the
+     history goes on from the same state (for the correspondence: the indices of the refused
+     operations, then the first operation that ends the history and its class) *)
+  Definition resumable (o : op) : bool :=
+    match o with
+    | Put _ _ _ _ | WriteCompressed _ _ _ | OpenStream _ _ _ _ => true
+    | _ => false
+    end.
+
+  Fixpoint run_lenient (st : state) (ops : list op) (i : N) (refused : list N)
+    : state * list N * option (N * cls) :=
+    match ops with
+    | [] => (st, rev refused, None)
+    | o :: r =>
+      match step st o with
+      | Ok st1 => run_lenient st1 r (i + 1) refused
+      | Err Other =>
+        if resumable o then run_lenient st r (i + 1) (i :: refused)
+        else (st, rev refused, Some (i, Other))
+      | Err e => (st, rev refused, Some (i, e))
+      end
+    end.
 
   (* index of the first rejected operation and its class (for the correspondence) *)
   Fixpoint run_trace (st : state) (ops : list op) (i : N) : state * option (N * cls) :=
